@@ -202,3 +202,23 @@ pub fn fr_describe_plain(dir: u64, plain: &[u8]) -> String {
         }
     }
 }
+
+/// Real boss commands (SetRoot{root}, CreateRootAncestors, Shutdown) through the real `send` under
+/// `key`: what a peer that wants a doer to act would put on the wire.
+pub fn fr_command_frames(key: [u8; 16], root: String) -> Vec<u8> {
+    use crate::boss_doer_interface::Command;
+    let (mut a, mut b) = fr_pair();
+    let reader = std::thread::spawn(move || { let mut v = Vec::new(); let _ = b.read_to_end(&mut v); v });
+    {
+        let cipher = Aes128Gcm::new(&Key::<Aes128Gcm>::from(key));
+        let mut buffer = vec![0u8; 8192 * 1024];
+        let mut ctr = 0u64;
+        for (i, c) in [Command::SetRoot { root }, Command::CreateRootAncestors, Command::Shutdown].into_iter().enumerate() {
+            // explicit counters so that the frames are well formed whatever `send` does with its counter
+            ctr = 2 * i as u64;
+            send(c, &mut a, &cipher, &mut ctr, 0, &mut buffer).expect("send");
+        }
+    }
+    drop(a);
+    reader.join().unwrap()
+}
